@@ -68,11 +68,14 @@ Vals(S, t) ==
                          MV(<< [k |-> pk[1], v |-> pv[Len(pv)]], [k |-> pk[Len(pk)], v |-> pv[1]] >>) }
 
 \* ---- the types: one field "f" of each shape ---------------------------------
-HasSimpleDefault(t) == t \in { B("bool"), B("i16"), B("i32"), B("i64"), B("double"), B("string"), Ref("Color"), Ref("MyInt"), ListOf(B("i32")) }
+\* (three of the container shapes get the EMPTY literal as their default: "= []" / "= {}")
+HasSimpleDefault(t) == t \in { B("bool"), B("i16"), B("i32"), B("i64"), B("double"), B("string"), Ref("Color"), Ref("MyInt"), ListOf(B("i32")),
+                              ListOf(B("string")), SetOf(B("i32")), MapOf(B("string"), B("i32")), Ref("MyList") }
 SimpleDefault(t) ==
   CASE t = B("bool") -> I(1) [] t = B("i16") -> I(258) [] t = B("i32") -> I(16909060) [] t = Ref("MyInt") -> I(16909060)
     [] t = B("i64") -> L64(<<0,0,0,7>>) [] t = B("double") -> Dbl(<<16393,8699,21572,11544>>)     \* pi: 17 significant digits in the IDL
     [] t = B("string") -> Str(<<104,105>>) [] t = Ref("Color") -> I(2) [] t = ListOf(B("i32")) -> LV(<< I(0), I(16909060) >>)
+    [] t = ListOf(B("string")) -> LV(<<>>) [] t = SetOf(B("i32")) -> SV(<<>>) [] t = MapOf(B("string"), B("i32")) -> MV(<<>>) [] t = Ref("MyList") -> LV(<<>>)
 
 TypeSpecs ==
   { [kind |-> kd, t |-> t, req |-> rq, dflt |-> df] :
